@@ -161,6 +161,11 @@ type side struct {
 	waiters            []*rt.Task
 	drain              bool                  // fault mode: after a mismatch keep emptying the transport so the sender is never blocked by us
 	pause              map[int]time.Duration // before receive #i the application is busy for that long
+	// report > 0: before its send #report-1 the application prints a progress report the way the
+	// library's users do - the sum of this connection's counters and another's (IOStats.Add, Sum).
+	// Reading statistics must leave them what they are.
+	report int
+	other  *side
 }
 
 func (s *side) signal() {
@@ -174,6 +179,11 @@ func (s *side) doSend() {
 	var ld ot.LabelData
 	c := s.conn
 	for i, o := range s.sendOps {
+		if s.report == i+1 && s.other != nil && s.other.conn != nil {
+			rt.Reach("stats.read-in-mid-session")
+			sum := c.Stats.Add(s.other.conn.Stats)
+			_ = sum.Sum()
+		}
 		var err error
 		switch o.Kind {
 		case opByte:
@@ -369,6 +379,16 @@ func (w *world) Run(t *rt.Tape, trace bool) *core.Result {
 			for k := 0; k <= t.Choose(rt.SGen, 2); k++ {
 				sd.pause[t.Choose(rt.SGen, len(sd.recvOps))] = []time.Duration{time.Second, 45 * time.Second, 10 * time.Minute}[t.Choose(rt.SGen, 3)]
 			}
+		}
+	}
+	// One case in four: an application thread reads the statistics in the middle of the session.
+	if t.Choose(rt.SGen, 4) == 0 {
+		sd, ot := a, b
+		if t.Choose(rt.SGen, 2) == 0 {
+			sd, ot = b, a
+		}
+		if len(sd.sendOps) > 0 {
+			sd.report, sd.other = 1+t.Choose(rt.SGen, len(sd.sendOps)), ot
 		}
 	}
 	// Fault mode (1 case in 6): one Write of A's transport fails once without
@@ -594,6 +614,21 @@ func (w *world) Run(t *rt.Tape, trace bool) *core.Result {
 		}
 		if !s.closed {
 			return fail("did-not-terminate", s.name+" never closed")
+		}
+	}
+	// reading the counters (Sum, Add) reports them and leaves them what they are
+	{
+		as, ar, bs, br := a.conn.Stats.Sent.Load(), a.conn.Stats.Recvd.Load(), b.conn.Stats.Sent.Load(), b.conn.Stats.Recvd.Load()
+		af, bf := a.conn.Stats.Flushed.Load(), b.conn.Stats.Flushed.Load()
+		sum := a.conn.Stats.Add(b.conn.Stats)
+		if sum.Sent.Load() != as+bs || sum.Recvd.Load() != ar+br || sum.Flushed.Load() != af+bf || sum.Sum() != as+bs+ar+br {
+			return fail("byte-counters", fmt.Sprintf("A.Stats.Add(B.Stats) = sent %d received %d flushed %d (Sum %d); A has sent %d received %d flushed %d, B sent %d received %d flushed %d", sum.Sent.Load(), sum.Recvd.Load(), sum.Flushed.Load(), sum.Sum(), as, ar, af, bs, br, bf))
+		}
+		if a.conn.Stats.Sum() != as+ar || b.conn.Stats.Sum() != bs+br {
+			return fail("byte-counters", fmt.Sprintf("Stats.Sum() is %d at A and %d at B; sent+received is %d and %d", a.conn.Stats.Sum(), b.conn.Stats.Sum(), as+ar, bs+br))
+		}
+		if a.conn.Stats.Sent.Load() != as || a.conn.Stats.Recvd.Load() != ar || b.conn.Stats.Sent.Load() != bs || b.conn.Stats.Recvd.Load() != br || a.conn.Stats.Flushed.Load() != af || b.conn.Stats.Flushed.Load() != bf {
+			return fail("byte-counters", fmt.Sprintf("adding up the statistics of the two connections (A.Stats.Add(B.Stats)) changed them: A sent %d -> %d received %d -> %d, B sent %d -> %d received %d -> %d", as, a.conn.Stats.Sent.Load(), ar, a.conn.Stats.Recvd.Load(), bs, b.conn.Stats.Sent.Load(), br, b.conn.Stats.Recvd.Load()))
 		}
 	}
 	// byte counters equal the bytes actually moved
